@@ -9,7 +9,7 @@ ids = [json.loads(l)["id"] for l in open(os.path.join(V, "properties.jsonl"))]
 
 TECH = {
  "C01": ("runtime monitoring: per-item exactly-once counters + quiescence/stuck-witness watchdog over perturbed random workloads (incl. queues retargeted while in use, EINTR storm), directed failpoint schedules (redirected waiter, pending barrier); ASan with stack-use-after-return detection", "§5 C01, §13.2"),
- "C02": ("runtime monitoring: offline interval-overlap and real-time FIFO checker over call/return/start/end stamps; lost-update counter; ThreadSanitizer on plain per-queue memory", "§5 C02"),
+ "C02": ("runtime monitoring: offline interval-overlap and real-time FIFO checker over call/return/start/end stamps (incl. the thread-bound main queue drained by eventfd wake-ups + _dispatch_main_queue_callback_4CF); lost-update counter; ThreadSanitizer on plain per-queue memory", "§5 C02, §13.2"),
  "C03": ("runtime monitoring: interval-overlap checker keyed by hierarchy bottom, per-queue FIFO, gate scenario; ThreadSanitizer", "§5 C03"),
  "C04": ("runtime monitoring: reader/writer overlap + barrier-ordering checker over stamps; torn-write words; ThreadSanitizer", "§5 C04"),
  "C05": ("runtime monitoring: return-vs-end stamps, check-summed plain payloads on every hand-off edge, waiter-stack canary (directed schedule); ThreadSanitizer (TSO-promoted library atomics) as happens-before oracle; ASan stack-use-after-return", "§5 C05, §13.2"),
@@ -21,10 +21,10 @@ TECH = {
  "C11": ("runtime monitoring: in-handler clock reading vs decoded deadline, fire-count bound, heap-invariant hook H2; ASan", "§5 C11"),
  "C12": ("runtime monitoring: differential testing of dispatch_time/dispatch_walltime against a 128-bit reference model + relational checks; UBSan", "§5 C12"),
  "C13": ("runtime monitoring: byte-string reference model over random operation trees, destructor counters; ASan/UBSan (+memcheck)", "§5 C13"),
- "C14": ("runtime monitoring: position-coded stream model over handler arguments, done/cleanup exactly-once, ordering; ASan", "§5 C14"),
+ "C14": ("runtime monitoring: position-coded stream model over handler arguments, done/cleanup exactly-once, ordering; unusable descriptors (EBADF, wrong type / access mode, missing path) with a bystander channel; ASan/LSan", "§5 C14, §13.2"),
  "C15": ("runtime monitoring: conservation (sum/union/last) checker over merge and handler events, re-entrancy flag", "§5 C15"),
  "C16": ("runtime monitoring: stamp-order checker over cancel/handler/cancel-handler events, epoll registration probe; ASan", "§5 C16"),
- "C17": ("sanitizers: ASan (with stack-use-after-return detection) / LSan over release-racing lifetime scenarios incl. retargeted and ephemeral target queues + finalizer/destructor counters", "§5 C17, §13.2"),
+ "C17": ("sanitizers: ASan (with stack-use-after-return detection) / LSan over release-racing lifetime scenarios incl. retargeted and ephemeral target queues and data objects of failed writes + finalizer/destructor counters", "§5 C17, §13.2"),
  "C18": ("runtime monitoring: expected-value model for get_specific/assert_queue/attributes/global queues, exhaustive attribute and identifier tables", "§5 C18"),
  "C19": ("runtime monitoring: stamp-order checker for block wait/notify/cancel, body counters; ThreadSanitizer", "§5 C19"),
  "C20": ("runtime monitoring: reference codecs, round-trip and inverse-accepts relations over all fragmentations; ASan/UBSan (+memcheck)", "§5 C20"),
